@@ -4,7 +4,7 @@ import copy
 
 from harness import common
 
-EXTRA_OBLIGATION_FILES = ("Props/C20_archives.v",)
+EXTRA_OBLIGATION_FILES = ("Props/C20_archives.v", "Props/C20_src.v",)
 
 LEVEL_NOTE = ("Theorems for embedded archives, combinations (all sequences of members: first wins, union, each key once) "
               "and directories (abstract stem/match functions, instantiated with string models of splitext and the "
